@@ -139,7 +139,8 @@ def quadratic_spline(
 
     if inverse:
         c_ = c - inputs
-        alpha = (-b + torch.sqrt(b.pow(2) - 4 * a * c_)) / (2 * a)
+        # Numerically stable root: also valid when a == 0 (equal heights).
+        alpha = (2 * c_) / (-b - torch.sqrt(b.pow(2) - 4 * a * c_))
         outputs = alpha * input_bin_widths + input_bin_locations
         outputs = torch.clamp(outputs, 0, 1)
         logabsdet = -torch.log(
